@@ -74,6 +74,19 @@ Fixpoint same_dir_sorted (l : list path) : bool :=
               && same_dir_sorted r
   end.
 
+(* "sorted by path" for a top-down walk: files of a directory in name order and before the files of its sub-directories,
+   sub-directories in name order *)
+Fixpoint path_before (p q : path) : bool :=
+  match p, q with
+  | [f], [g] => match str_cmp f g with Lt => true | _ => false end
+  | [_], _ :: _ :: _ => true
+  | _ :: _ :: _, [_] => false
+  | a :: p', b :: q' => if str_eqb a b then path_before p' q' else match str_cmp a b with Lt => true | _ => false end
+  | _, _ => false
+  end.
+Fixpoint path_sorted (l : list path) : bool :=
+  match l with [] => true | p :: r => forallb (path_before p) r && path_sorted r end.
+
 Definition abs_files (c : case) : list path :=
   match top c with D n kids => map (cons n) (all_files kids) | F _ => [] end.
 
@@ -95,6 +108,7 @@ Definition c14_ok (c : case) : bool :=
   | Some fk =>
     let fl := map fst fk in
     nodup_paths fl && same_dir_sorted fl
+    && match walk_roots c with [_] => path_sorted fl | _ => true end      (* one search path: discovery order is path order *)
     && forallb (fun p => Bool.eqb (pmem p fl) (should_find c files p)) files
     && forallb (fun p => pmem p files) fl
   | None => true
